@@ -39,6 +39,8 @@ struct OsslCtxConfig {
     bool ems = true;                         // false = SSL_OP_NO_EXTENDED_MASTER_SECRET
     bool etm = true;                         // false = SSL_OP_NO_ENCRYPT_THEN_MAC
     bool server_pref = false;                // SSL_OP_CIPHER_SERVER_PREFERENCE
+    bool legacy_server_connect = false;      // client: SSL_OP_LEGACY_SERVER_CONNECT (talk to servers without RFC 5746 renegotiation_info)
+    bool auto_chain = true;                  // false = SSL_MODE_NO_AUTO_CHAIN: send only the configured chain file, do not append issuers found in the trust store
     int max_send_fragment = 0;               // 512..16384, 0 = default
     std::string psk_identity; Bytes psk_key; // TLS<=1.2 PSK suites (callbacks installed when psk_key non-empty)
     int dtls_mtu = 0;                        // DTLS: link MTU (0 = 1400)
@@ -109,6 +111,7 @@ public:
     std::string own_sig_name() const;
     bool peer_cert_present() const;
     long verify_result() const;                     // X509_V_OK = 0
+    bool secure_renegotiation() const;              // peer supports RFC 5746 (SSL_get_secure_renegotiation_support)
     bool ems_negotiated() const;                    // SSL_get_extms_support
     // handshake message types in order of appearance, 'r' (received) / 'w' (written) + decimal type, e.g. "w1 r2 r11 ..."
     const std::string &hs_trace() const;
